@@ -31,6 +31,12 @@ class SnakeH(Harness):
     REF_DRAWS = True   # ref_step reads S' only for the re-sampled fruit position (fresh randomness)
     OBS_GROUP = 10     # the (R,C,5) float grid is proved in chunks of two cells (one monolithic query: 40 s on 3x4)
 
+    @staticmethod
+    def capacity(env):
+        """largest values the rules give the counting leaves (checks/C07.run_capacity)"""
+        n = env.num_rows * env.num_cols
+        return {".body_state": n, ".length": n}
+
     def dims(self):
         return self.env.num_rows, self.env.num_cols
 
